@@ -31,6 +31,16 @@ theorem originRow0S_eq {n : ℕ} (r : ℚ → ℚ) (x : Fin (n + 1) → ℚ) :
     (originRow0S r x).toFn = originToRow0 r x := by
   simp [originRow0S, originToRow0, gsRow0]
 
+/-- the executed row 0 is row 0 of Gram–Schmidt (`gsRow0`) on the upper-sheet representative -/
+theorem originRow0S_gs {n : ℕ} (r : ℚ → ℚ) (x : Fin (n + 1) → ℚ) :
+    (originRow0S r x).toFn = gsRow0 r (upperSheet (normalize r x)) := by
+  simp [originRow0S, gsRow0]
+
+/-- `c13.tv_rows` answers row 0 of `TangentVector.origin_to` with the same staged function -/
+theorem tvRow0S_eq {n : ℕ} (r : ℚ → ℚ) (p v : Fin (n + 1) → ℚ) :
+    (originRow0S r p).toFn = tvOriginToRow0 r p v := by
+  simp [originRow0S, tvOriginToRow0, gsRow0]
+
 def tvRow1S {n : ℕ} (r : ℚ → ℚ) (p v : Fin (n + 1) → ℚ) : V (n + 1) :=
   let w := S (projHyp p v)
   let ph0 := S (normalize r p)
@@ -43,6 +53,12 @@ def tvRow1S {n : ℕ} (r : ℚ → ℚ) (p v : Fin (n + 1) → ℚ) : V (n + 1) 
 theorem tvRow1S_eq {n : ℕ} (r : ℚ → ℚ) (p v : Fin (n + 1) → ℚ) :
     (tvRow1S r p v).toFn = tvOriginToRow1 r p v := by
   simp [tvRow1S, tvOriginToRow1, gsRow1]
+
+/-- the executed row 1 is row 1 of Gram–Schmidt (`gsRow1`) on the sheet-normalised pair -/
+theorem tvRow1S_gs {n : ℕ} (r : ℚ → ℚ) (p v : Fin (n + 1) → ℚ) :
+    (tvRow1S r p v).toFn = gsRow1 r (upperSheet (normalize r p))
+      (fun i => sheetSign (normalize r p) * normalize r (projHyp p v) i) := by
+  simp [tvRow1S, gsRow1]
 
 def tvNormalizedS {n : ℕ} (r : ℚ → ℚ) (p v : Fin (n + 1) → ℚ) : V (n + 1) :=
   let w := S (projHyp p v)
@@ -76,6 +92,18 @@ theorem angleCosS_eq {n : ℕ} (r : ℚ → ℚ) (p v₁ v₂ : Fin (n + 1) → 
 theorem angleCosS_clamped_eq {n : ℕ} (r : ℚ → ℚ) (p v₁ v₂ : Fin (n + 1) → ℚ) :
     max (-1) (min 1 (angleCosS r p v₁ v₂)) = angleCosClamped r p v₁ v₂ := by
   rw [angleCosS_eq]; rfl
+
+/-- `angleCosPair` staged: `other` stores its own base point `q` -/
+def angleCosPairS {n : ℕ} (r : ℚ → ℚ) (p v₁ q v₂ : Fin (n + 1) → ℚ) : ℚ :=
+  let a₁ := tvNormalizedS r p v₁
+  let a₂ := tvNormalizedS r q v₂
+  let b₁ := S (projHyp p a₁.toFn)
+  let b₂ := S (projHyp p a₂.toFn)
+  (if mink p q > 0 then -1 else 1) * mink b₁.toFn b₂.toFn
+
+theorem angleCosPairS_eq {n : ℕ} (r : ℚ → ℚ) (p v₁ q v₂ : Fin (n + 1) → ℚ) :
+    angleCosPairS r p v₁ q v₂ = angleCosPair r p v₁ q v₂ := by
+  simp [angleCosPairS, angleCosPair, tvNormalizedS_eq]
 
 /-- row 0 of `Point.origin_to()` -/
 def originRow0 (j : Json) : R Json := withVec j "x" fun _ x => do
@@ -120,7 +148,8 @@ def pointAlongOp (j : Json) : R Json := withVec j "p" fun n p => do
   return Json.mkObj [("pt", ofQArr y.a), ("cosh", ofQ (coshDist rsqrt p y.toFn)),
     ("th", ofQ (hypToAffine ((ch + sh) ^ 2)))]
 
-/-- the argument of `arccos` in `TangentVector(p,v1).angle(TangentVector(p,v2))` -/
+/-- the argument of `arccos` in `TangentVector(p,v1).angle(TangentVector(p,v2))`, or, with `"q"` present,
+in `TangentVector(p,v1).angle(TangentVector(q,v2))` -/
 def angleOp (j : Json) : R Json := withVec j "p" fun n p => do
   let v₁ ← vecf (n + 1) j "v1"
   let v₂ ← vecf (n + 1) j "v2"
@@ -128,8 +157,17 @@ def angleOp (j : Json) : R Json := withVec j "p" fun n p => do
   let w₁ := S (projHyp p v₁)
   let w₂ := S (projHyp p v₂)
   needSq |mink w₁.toFn w₁.toFn|
-  needSq |mink w₂.toFn w₂.toFn|
-  return ofQ (max (-1) (min 1 (angleCosS rsqrt p v₁ v₂)))
+  match j.getObjVal? "q" with
+  | .error _ =>
+    needSq |mink w₂.toFn w₂.toFn|
+    return ofQ (max (-1) (min 1 (angleCosS rsqrt p v₁ v₂)))
+  | .ok _ =>
+    -- `other` stores its own base point `q` (`TangentVector.angle` multiplies by the sheet sign before clipping)
+    let q ← vecf (n + 1) j "q"
+    if mink q q == 0 then throw "DivZero"
+    let u₂ := S (projHyp q v₂)
+    needSq |mink u₂.toFn u₂.toFn|
+    return ofQ (max (-1) (min 1 (angleCosPairS rsqrt p v₁ q v₂)))
 
 /-- `polyVertex` with every iterate materialised -/
 def polyVertexS {n : ℕ} (c s th : ℚ) : ℕ → V (n + 3)
